@@ -159,6 +159,23 @@ pub struct World {
     pub kb_made: BTreeMap<String, KbRecord>,
     pub ops: u64,
     pub panics: Vec<(String, PanicInfo)>,
+    /// other traffic for the next `verify` call (consumed by it)
+    pub traffic: Option<Traffic>,
+}
+
+/// Another verification that happens "at the same time" as the one under test: on another
+/// thread, interleaved at the resolver call (a key-directory lookup is a network round trip) and
+/// at the clock read by a seeded schedule — or from inside the resolver callback on the same
+/// thread (an application that validates the issuer's own credential before answering).
+/// Either way the verification under test must come out as it would alone.
+#[derive(Clone, Debug)]
+pub struct Traffic {
+    /// 1 = interleaved on `node`, 2 = re-entrant from the resolver callback
+    pub mode: u8,
+    pub wire: String,
+    pub fmt: Fmt,
+    pub node: usize,
+    pub seed: u64,
 }
 
 /// Key the directory answers with for an issuer it does not know. (ecB also serves as an issuer
@@ -212,7 +229,7 @@ impl World {
     pub fn new(directory: BTreeMap<String, String>) -> World {
         #[cfg(feature = "mock")]
         auto_salts::new_world();
-        World { rt: Runtime::new(), directory: Arc::new(directory), signed_by: BTreeMap::new(), kb_made: BTreeMap::new(), ops: 0, panics: Vec::new() }
+        World { rt: Runtime::new(), directory: Arc::new(directory), signed_by: BTreeMap::new(), kb_made: BTreeMap::new(), ops: 0, panics: Vec::new(), traffic: None }
     }
 
     pub fn note_panic<T>(&mut self, what: &str, o: &Out<T>) {
@@ -326,22 +343,94 @@ impl World {
         let calls2 = calls.clone();
         let _ = seams::take_clock_reads();
         let (aud, nonce) = session.unwrap_or((None, None));
-        let r = self.rt.call_typed(node, move || {
+        let traffic = self.traffic.take().filter(|t| t.node != node || t.mode == 2);
+        let reentrant: Option<(String, Fmt)> = traffic.as_ref().filter(|t| t.mode == 2).map(|t| (t.wire.clone(), t.fmt));
+        let interleaved = traffic.as_ref().filter(|t| t.mode == 1).cloned();
+        let yield_in_resolver = interleaved.is_some();
+        let dir_inner = self.directory.clone();
+        let job = move || {
             let cb = Box::new(move |iss: &str, header: &Header| {
                 let kid = match &res {
                     Resolver::Directory => dir.get(iss).cloned().unwrap_or_else(|| UNKNOWN_ISSUER_KEY.to_string()),
                     Resolver::Fixed(k) => k.clone(),
                 };
                 calls2.lock().unwrap_or_else(|e| e.into_inner()).push((iss.to_string(), format!("{:?}", header.alg), kid.clone()));
+                if let Some((iw, ifmt)) = &reentrant {
+                    // the application verifies another SD-JWT before it answers
+                    let d2 = dir_inner.clone();
+                    let icb = Box::new(move |iss: &str, _h: &Header| keys::dec_key(&d2.get(iss).cloned().unwrap_or_else(|| UNKNOWN_ISSUER_KEY.to_string())));
+                    let _ = SDJWTVerifier::new(iw.clone(), icb, None, None, ifmt.lib());
+                }
+                if yield_in_resolver {
+                    crate::rt::yield_point(crate::rt::YieldKind::Explicit);
+                }
                 keys::dec_key(&kid)
             });
             match SDJWTVerifier::new(w, cb, aud, nonce, fmt.lib()) {
                 Ok(v) => Out::Ok(v.verified_claims),
                 Err(e) => lib_err(e),
             }
-        });
+        };
+        let r = match interleaved {
+            None => self.rt.call_typed(node, job),
+            Some(t) => {
+                use crate::rt::{Job, JobOut, Step};
+                let d3 = self.directory.clone();
+                let (bw, bf) = (t.wire.clone(), t.fmt);
+                let bg: Job = Box::new(move || {
+                    let icb = Box::new(move |iss: &str, _h: &Header| {
+                        crate::rt::yield_point(crate::rt::YieldKind::Explicit);
+                        keys::dec_key(&d3.get(iss).cloned().unwrap_or_else(|| UNKNOWN_ISSUER_KEY.to_string()))
+                    });
+                    let _ = SDJWTVerifier::new(bw, icb, None, None, bf.lib());
+                    Box::new(()) as JobOut
+                });
+                let main: Job = Box::new(move || Box::new(job()) as JobOut);
+                self.rt.submit(node, main);
+                self.rt.submit(t.node, bg);
+                let was = seams::PREEMPT_CLOCK.swap(true, std::sync::atomic::Ordering::SeqCst);
+                let mut rng = crate::rng::Rng::new(t.seed);
+                let mut out: Option<Result<JobOut, PanicInfo>> = None;
+                let mut bg_done = false;
+                let mut guard = 0u32;
+                while out.is_none() || !bg_done {
+                    guard += 1;
+                    let mut cand = Vec::new();
+                    if out.is_none() {
+                        cand.push(node);
+                    }
+                    if !bg_done {
+                        cand.push(t.node);
+                    }
+                    let runnable = self.rt.runnable();
+                    let cand: Vec<usize> = cand.into_iter().filter(|c| runnable.contains(c)).collect();
+                    if cand.is_empty() || guard > 100_000 {
+                        // both wait for each other (a lock of the code under test): let real time decide
+                        if !self.rt.wait_for_blocked(2_000) {
+                            break;
+                        }
+                        continue;
+                    }
+                    let pick = cand[rng.usize(cand.len())];
+                    seams::log_u64("sched", pick as u64);
+                    if let Step::Finished(r) = self.rt.step(pick) {
+                        if pick == node {
+                            out = Some(r);
+                        } else {
+                            bg_done = true;
+                        }
+                    }
+                }
+                seams::PREEMPT_CLOCK.store(was, std::sync::atomic::Ordering::SeqCst);
+                match out {
+                    Some(Ok(o)) => Ok(*o.downcast::<Out<Value>>().expect("job output type")),
+                    Some(Err(p)) => Err(p),
+                    None => Err(PanicInfo { file: "harness".into(), line: 0, msg: "verification did not finish: it waits for a lock held by the concurrent verification".into() }),
+                }
+            }
+        };
         let o = from_job(r);
-        let reads: Vec<i64> = seams::take_clock_reads().into_iter().map(|(_, t)| t).collect();
+        let reads: Vec<i64> = seams::take_clock_reads().into_iter().filter(|(n, _)| *n == node as i32).map(|(_, t)| t).collect();
         seams::log("verify", o.describe().as_bytes());
         if let Out::Ok(v) = &o {
             seams::log("claims", v.to_string().as_bytes());
